@@ -113,6 +113,11 @@ def gen_cases(tier: str, seed: int) -> list[dict]:
     for w in (0, 2):
         cases.append({"payload": "falsy", "nkeys": 8, "workers": w, "fp": {"kind": "none"}})
     cases.append({"payload": "falsy", "nkeys": 8, "workers": 0, "fp": {"kind": "subset", "subset": [0, 3, 5]}})
+    # two caching runs on one cache directory, the second one running while the first is held at a line of the save function
+    for ln in lines_sv:
+        cases.append({"payload": "small", "nkeys": 2, "workers": 0, "fp": {"kind": "concurrent", "func": "save", "line": ln, "hit": 1}})
+    for ln in lines_lr[-3:]:
+        cases.append({"payload": "small", "nkeys": 2, "workers": 0, "fp": {"kind": "concurrent", "func": "load_or_run", "line": ln, "hit": 2}})
     for kt in ("float_fine_steps", "float_large", "numpy_float", "int", "tuple", "negative_and_small"):
         for w in (0, 2):
             cases.append({"payload": f"keys:{kt}", "nkeys": 4, "workers": w, "fp": {"kind": "none"}})
@@ -237,6 +242,8 @@ def run_case(case: dict) -> dict:
         expected = run_workload(payload, nkeys, None, 0)  # cache-free oracle
         if fp["kind"] == "same_process":
             return _same_process_history(case, ident, root, cdir, expected, counters)
+        if fp["kind"] == "concurrent":
+            return _concurrent_runs(case, ident, root, cdir, counters)
         os.environ["VERIF_CALLLOG"] = calllog
 
         # ---- run 1: caching run with the failpoint armed -------------------------
@@ -320,6 +327,84 @@ def run_case(case: dict) -> dict:
         counters["partial_cache_not_a_prefix"] = int(died)
     return core.result(sig=core.sha(ident), nontrivial=died, violations=viols[:3], counters=counters,
                        sample={"case": ident, "post_crash_directory": listing, "run1_exit": st1} if died and case.get("idx", 0) % 25 == 0 else None, info=info)
+
+
+def _run_keys(prefix: str, nkeys: int, cdir: str | None):  # noqa: ANN202
+    from pathlib import Path
+
+    from mxlpy.parallel import Cache, parallelise
+
+    cache = None if cdir is None else Cache(tmp_dir=Path(cdir))
+    return [(k, v) for k, v in parallelise(cachefn.small, [(f"{prefix}{i}", i + 2) for i in range(nkeys)], cache=cache, parallel=False, disable_tqdm=True)]
+
+
+def _concurrent_runs(case: dict, ident: dict, root: str, cdir: str, counters: dict) -> dict:
+    """Two caching runs over different keys share one cache directory; the second runs from start to end while the first is
+    held at a line of the cache's save function / of _load_or_run (schedule point). Both must return the cache-free results,
+    and a later run must find every key on disk."""
+    import mxlpy.parallel as par
+
+    fp = case["fp"]
+    nkeys = case["nkeys"]
+    reached, go = os.path.join(root, "reached"), os.path.join(root, "go")
+    exp_a, exp_b = _run_keys("a", nkeys, None), _run_keys("b", nkeys, None)
+    viols: list[dict] = []
+
+    def job_a() -> None:
+        target = par._load_or_run if fp["func"] == "load_or_run" else _save_fn()  # noqa: SLF001
+        failpoints.arm_line_pause(target, fp["line"], fp["hit"], reached, go)
+        with open(os.path.join(root, "a.pkl"), "wb") as fh:
+            pickle.dump(_run_keys("a", nkeys, cdir), fh)
+
+    def job_b() -> None:
+        with open(os.path.join(root, "b.pkl"), "wb") as fh:
+            pickle.dump(_run_keys("b", nkeys, cdir), fh)
+
+    pid = os.fork()
+    if pid == 0:
+        code = 0
+        try:
+            devnull = os.open(os.devnull, os.O_WRONLY)
+            os.dup2(devnull, 2)
+            job_a()
+        except BaseException:  # noqa: BLE001
+            code = 3
+            with open(os.path.join(root, "a.err"), "w") as fh:
+                fh.write(traceback.format_exc())
+        finally:
+            os._exit(code)
+    t0 = time.time()
+    while not os.path.exists(reached) and time.time() - t0 < 20:
+        if os.waitpid(pid, os.WNOHANG)[0] == pid:
+            break
+        time.sleep(0.01)
+    held = os.path.exists(reached)
+    counters["first_run_held_at_schedule_point"] = int(held)
+    st_b, _ = _child(job_b)
+    open(go, "w").close()
+    try:
+        _, status = os.waitpid(pid, 0)
+        st_a = os.WEXITSTATUS(status) if os.WIFEXITED(status) else 128 + os.WTERMSIG(status)
+    except ChildProcessError:
+        st_a = 0
+    if held:
+        if st_a != 0:
+            err = open(os.path.join(root, "a.err")).read()[-500:] if os.path.exists(os.path.join(root, "a.err")) else ""
+            viols.append(core.viol("a caching run failed because another caching run used the same cache directory meanwhile", None, case=ident, status=st_a, error=err))
+        elif pickle.load(open(os.path.join(root, "a.pkl"), "rb")) != exp_a:  # noqa: S301, SIM115
+            viols.append(core.viol("a caching run returned wrong results while another run used the same cache directory", None, case=ident))
+        if st_b != 0 or pickle.load(open(os.path.join(root, "b.pkl"), "rb")) != exp_b:  # noqa: S301, SIM115
+            viols.append(core.viol("the second of two concurrent caching runs failed or returned wrong results", None, case=ident, status=st_b))
+        if not viols:
+            def again() -> None:
+                with open(os.path.join(root, "again.pkl"), "wb") as fh:
+                    pickle.dump((_run_keys("a", nkeys, cdir), _run_keys("b", nkeys, cdir)), fh)
+
+            st_c, _ = _child(again)
+            if st_c != 0 or pickle.load(open(os.path.join(root, "again.pkl"), "rb")) != (exp_a, exp_b):  # noqa: S301, SIM115
+                viols.append(core.viol("rerun after two concurrent caching runs fails or returns wrong results", None, case=ident, status=st_c))
+            counters["concurrent_runs_compared"] = 1
+    return core.result(sig=core.sha(ident), nontrivial=held, violations=viols[:2], counters=counters)
 
 
 def _same_process_history(case: dict, ident: dict, root: str, cdir: str, expected: list, counters: dict) -> dict:
